@@ -34,3 +34,26 @@ pub fn run_lines(f: impl Fn(&[&str]) -> Option<String> + std::panic::RefUnwindSa
     }
     out.flush().unwrap();
 }
+
+/// Standard command line of a property module: `gen <seed> <quick|thorough>` prints cases,
+/// `run` answers cases from stdin.
+pub fn standard_cli(
+    args: &[String],
+    generate: impl Fn(u64, bool) -> Vec<String>,
+    run_case: impl Fn(&[&str]) -> Option<String> + std::panic::RefUnwindSafe,
+) {
+    match args.first().map(|s| s.as_str()) {
+        Some("gen") => {
+            let seed: u64 = args.get(1).and_then(|s| s.parse().ok()).unwrap_or(0);
+            let thorough = args.get(2).map(|s| s == "thorough").unwrap_or(false);
+            let mut s = generate(seed, thorough).join("\n");
+            s.push('\n');
+            std::io::stdout().write_all(s.as_bytes()).unwrap();
+        }
+        Some("run") => run_lines(run_case),
+        _ => {
+            eprintln!("usage: gen <seed> <quick|thorough> | run");
+            std::process::exit(2);
+        }
+    }
+}
